@@ -2,6 +2,7 @@
 Each module exposes run_stage(rep): it adds its TLC runs, traces, evaluations and (if any) violations to the
 same Report; it must be quick (a few tens of seconds) in the quick tier."""
 EXTRAS = {
+    "C01": ["resplife"],
     "C02": ["h2probe"],
     "C05": ["redirmeta"],
     "C09": ["ssltransport"],
